@@ -140,11 +140,12 @@ Definition md_unpack (data : bytes) : res MetadataPdu :=
   let p := md_with_fdir p f in
   do _ <- hdr_verify_length_and_checksum (fd_hdr f) data;
   let current_idx := fdir_header_len f in
+  let end_of_params :=
+    if cf_crc (h_conf (fd_hdr f)) =? CRC_WITH_CRC then md_packet_len p - 2 else md_packet_len p in
   let min_expected_len := current_idx + 7 in
   let min_expected_len :=
     if cf_large (h_conf (fd_hdr f)) =? FILE_LARGE then min_expected_len + 4 else min_expected_len in
-  let min_expected_len := Z.max min_expected_len (md_packet_len p) in
-  if len data <? min_expected_len then Err ETooShort else
+  if end_of_params <? min_expected_len then Err ETooShort else
   do b <- py_get data current_idx;
   let closure := if Z.land b 64 =? 0 then 0 else 1 in
   do cs <- checksum_type_of_int (Z.land b 15);
@@ -153,12 +154,13 @@ Definition md_unpack (data : bytes) : res MetadataPdu :=
   let '(current_idx, file_size) := r in
   let params := {| mp_closure := closure; mp_cstype := cs; mp_fsize := file_size;
                    mp_src := Some []; mp_dst := Some [] |} in
-  do s <- lv_unpack (slice_from data current_idx);
+  do s <- lv_unpack (slice data current_idx end_of_params);
   let current_idx := current_idx + lv_packet_len s in
-  do d <- lv_unpack (slice_from data current_idx);
+  do d <- lv_unpack (slice data current_idx end_of_params);
   let current_idx := current_idx + lv_packet_len d in
-  do o <- (if current_idx <? len data then
-             do l <- md_opt_loop (S (length data)) data current_idx []; Ok (Some l)
+  do o <- (if current_idx <? end_of_params then
+             let raw := slice_to data end_of_params in
+             do l <- md_opt_loop (S (length raw)) raw current_idx []; Ok (Some l)
            else Ok (md_options p));
   Ok {| md_fdir := f; md_params := params; md_src_lv := s; md_dst_lv := d; md_options := o |}.
 
@@ -170,12 +172,9 @@ Fixpoint opts_eqb (a b : list tlv) : bool :=
   | x :: a', y :: b' => tlv_eqb x y && opts_eqb a' b'
   | _, _ => false
   end.
+(* (self._options or []) == (other._options or []) *)
 Definition options_eqb (a b : option (list tlv)) : bool :=
-  match a, b with
-  | None, None => true
-  | Some x, Some y => opts_eqb x y
-  | _, _ => false
-  end.
+  opts_eqb (match a with Some x => x | None => [] end) (match b with Some y => y | None => [] end).
 (* MetadataPdu.__eq__ *)
 Definition md_eqb (a b : MetadataPdu) : bool :=
   fdir_eqb (md_fdir a) (md_fdir b) &&
